@@ -658,10 +658,81 @@ Fixpoint do_parse_loop (fuel : nat) (o : jopts) (bs : list Z) (acc : list (list 
       end
   end.
 
-Definition do_parse (o : jopts) (text : list Z) : jres :=
-  let bs := cstr text in do_parse_loop (S (length bs)) o bs [].
+(* on the bytes before the terminating NUL *)
+Definition do_parse_text (o : jopts) (bs : list Z) : jres := do_parse_loop (S (length bs)) o bs [].
+Definition do_parse (o : jopts) (text : list Z) : jres := do_parse_text o (cstr text).
 
 (* FromJsonString's result: exactly one document is returned unwrapped *)
 Inductive fromjson_result := One (d : list ev) | Many (ds : list (list ev)).
 Definition unwrap (docs : list (list ev)) : fromjson_result :=
   match docs with [d] => One d | _ => Many docs end.
+
+(* ------------------------------------------------------------------ vocabulary of the theorem statements *)
+Definition no_digit_head (rest : list Z) : Prop :=
+  match rest with [] => True | c :: _ => is_digit c = false end.
+
+
+(* what may follow a number token without being absorbed by it *)
+Definition num_safe (rest : list Z) : Prop :=
+  match rest with [] => True | c :: _ => is_digit c = false /\ c <> 46 /\ c <> 101 /\ c <> 69 end.
+
+
+Definition all_ws (w : list Z) : Prop := Forall (fun c => is_ws c = true) w.
+
+
+Definition doc_text (dw : list ev * list Z) : list Z := render (fst dw) ++ snd dw.
+Definition docs_text (dws : list (list ev * list Z)) : list Z := concat (map doc_text dws).
+
+(* every document but the last is followed by at least one whitespace character *)
+Fixpoint seps_ok (dws : list (list ev * list Z)) : Prop :=
+  match dws with
+  | [] => True
+  | dw :: rest => match rest with [] => True | _ => snd dw <> [] end /\ seps_ok rest
+  end.
+
+Definition doc_ok (dw : list ev * list Z) : Prop :=
+  wf (fst dw) = true /\ printable (fst dw) = true /\ all_ws (snd dw).
+
+
+(* ------------------------------------------------------------------ the documented rendering of a value *)
+(* records -> objects, tuples -> objects keyed "0","1",..., strings and bytestrings -> strings,
+   None -> null, nan/inf -> the chosen strings (left as they are when no string was chosen) *)
+Fixpoint jv (o : jopts) (v : value) : value :=
+  match v with
+  | VNum DNaN => match nan_s o with Some s => VStr true s | None => v end
+  | VNum (DInf false) => match inf_s o with Some s => VStr true s | None => v end
+  | VNum (DInf true) => match minf_s o with Some s => VStr true s | None => v end
+  | VNum (DZ _) | VBool _ | VNone => v
+  | VStr _ s => VStr true s
+  | VList l => VList (map (jv o) l)
+  | VRec fs => VRec (map (fun kv => match kv with (k, x) => (k, jv o x) end) fs)
+  | VTup vs => VRec (zip (tuple_keys (length vs)) (map (jv o) vs))
+  end.
+
+(* uint64 items that survive the (int64_t) cast of tojson_integer<uint64_t> *)
+Definition datum_i64 (d : datum) : bool :=
+  match d with DZ z => (0 <=? z) && (z <? 9223372036854775808) | _ => true end.
+Fixpoint u64ok (c : content) : bool :=
+  match c with
+  | Numpy DUInt64 _ data => forallb datum_i64 data
+  | Numpy _ _ _ | Empty => true
+  | ListOffset _ _ c' | ListA _ _ _ c' | Regular c' _ _ | Indexed _ _ c' | IndexedOption _ _ c'
+  | ByteMasked _ _ c' | BitMasked _ _ _ _ c' | Unmasked c' | Par _ _ c' => u64ok c'
+  | Union _ _ _ cs | Record cs _ _ =>
+      (fix all (l : list content) : bool := match l with [] => true | x :: xs => u64ok x && all xs end) cs
+  end.
+
+(* fragment of Theorem tojson_value_partial: 1-d numeric leaves, the three list classes, IndexedArray,
+   the option classes, UnmaskedArray, records and tuples, EmptyArray; no parameters (strings), no unions,
+   no n-d NumpyArray *)
+Fixpoint frag15 (c : content) : bool :=
+  match c with
+  | Numpy _ [_] _ => true
+  | Numpy _ _ _ => false
+  | Empty => true
+  | ListOffset _ _ c' | ListA _ _ _ c' | Regular c' _ _ | Indexed _ _ c' | IndexedOption _ _ c'
+  | ByteMasked _ _ c' | BitMasked _ _ _ _ c' | Unmasked c' => frag15 c'
+  | Record cs _ _ =>
+      (fix all (l : list content) : bool := match l with [] => true | x :: xs => frag15 x && all xs end) cs
+  | Union _ _ _ _ | Par _ _ _ => false
+  end.
